@@ -11,6 +11,7 @@
 #include <sstream>
 #include <streambuf>
 #include <sys/stat.h>
+#include <sys/wait.h>
 #include <typeinfo>
 
 int gm2calc_main(int argc, const char* argv[]);
@@ -292,11 +293,17 @@ void run_plan(const std::vector<std::string>& plan, uint64_t run_index, const ch
          std::string sig = oracle(s, o, detail);
          // the per-worker directory name appears in diagnostics: take it out of the hashed text
          auto strip = [](std::string t) { size_t p; while ((p = t.find(g_fsdir)) != std::string::npos) t.replace(p, g_fsdir.size(), "<FS>"); return t; };
-         sim::Fnv h; h.u64((uint64_t)o.status); h.str(strip(o.out)); h.str(strip(o.err)); h.str(o.uncaught);
-         rr.hash = h.h; rr.steps = o.steps; rr.status = o.status; rr.intact = s.base_intact;
-         std::snprintf(rr.sig, sizeof rr.sig, "%s", sig.c_str());
-         std::snprintf(rr.detail, sizeof rr.detail, "%s", detail.c_str());
-         classify(s, o, rr);
+         // the observable behaviour is that of the FIRST execution (later attempts exist only to tell a repeating leak
+         // from one-time initialisation; the program may legitimately behave differently the second time in a process)
+         if (attempt == 0) {
+            sim::Fnv h; h.u64((uint64_t)o.status); h.str(strip(o.out)); h.str(strip(o.err)); h.str(o.uncaught);
+            rr.hash = h.h; rr.steps = o.steps; rr.status = o.status; rr.intact = s.base_intact;
+            std::snprintf(rr.detail, sizeof rr.detail, "%s", detail.c_str());
+            classify(s, o, rr);
+            if (out_copy) *out_copy = o.out;
+            if (err_copy) *err_copy = o.err;
+         }
+         std::snprintf(rr.sig, sizeof rr.sig, "%s", attempt == 0 ? sig.c_str() : "");
          if (attempt == 0 && st) {
             st->add("steps", o.steps); st->add("status_" + std::to_string(o.status));
             st->add(o.cpu_ms < 10 ? "cpu_lt_10ms" : o.cpu_ms < 100 ? "cpu_lt_100ms" : o.cpu_ms < 1000 ? "cpu_lt_1s" : o.cpu_ms < 5000 ? "cpu_lt_5s" : "cpu_ge_5s");
@@ -313,8 +320,6 @@ void run_plan(const std::vector<std::string>& plan, uint64_t run_index, const ch
             if (o.out.compare(0, 4, "====") == 0) st->add("probe_detailed_writer");
             if (s.cfg_known_format >= 0) st->add("probe_known_format_" + std::to_string(s.cfg_known_format));
          }
-         if (out_copy) *out_copy = o.out;
-         if (err_copy) *err_copy = o.err;
          if (rr.sig[0]) return;
       }
       const long delta = g_live - live0;
@@ -482,11 +487,31 @@ int main(int argc, char** argv)
    g_prefix.build(false); g_prefixq.build(true); g_token.build(false); g_tokenq.build(true); g_config.build(false); g_configq.build(true); g_arglen.build();
 
    // calibrate the logical step budget on the intact corpus of the current tree
+   // (in a forked child: the worker itself must not have executed the program before its first run, so that a plan
+   // executed by a fresh worker sees what a fresh process of the real program sees -- state the program keeps for
+   // the life of a process, e.g. a warn-once flag, included)
    uint64_t max_steps = 0;
    g_budget = 4000000000ULL;
-   for (size_t i = 0; i < 2 * g_corpus.files.size(); ++i) {
-      RunResult rr; run_plan(plan_of("CORPUS", 0, i, nullptr), i, "calibration", rr, nullptr);
-      max_steps = std::max(max_steps, rr.steps);
+   {
+      int fd[2];
+      if (pipe(fd) != 0) { std::fprintf(stderr, "pipe failed\n"); return 2; }
+      std::fflush(stdout);
+      const pid_t pid = fork();
+      if (pid == 0) {
+         close(fd[0]);
+         uint64_t m = 0;
+         for (size_t i = 0; i < 2 * g_corpus.files.size(); ++i) {
+            RunResult rr; run_plan(plan_of("CORPUS", 0, i, nullptr), i, "calibration", rr, nullptr);
+            m = std::max(m, rr.steps);
+         }
+         (void)!write(fd[1], &m, sizeof m);
+         _exit(0);
+      }
+      close(fd[1]);
+      if (read(fd[0], &max_steps, sizeof max_steps) != (ssize_t)sizeof max_steps) max_steps = 0; // the child died: the parent reports it (COUNT prints BUDGET with 0)
+      close(fd[0]);
+      int status = 0; waitpid(pid, &status, 0);
+      if (!(WIFEXITED(status) && WEXITSTATUS(status) == 0)) { std::printf("NOTE calibration on the intact corpus ended abnormally (status %d)\n", status); }
    }
    g_budget = std::max<uint64_t>(50 * max_steps, 2000000);
 
